@@ -5,7 +5,9 @@ import json
 import _checker_common as K
 import _zoo
 import _call_common as C
+import _intro_common as T
 import _call_reentrant as R
+import C07 as TV
 
 RULE = ('exhaustive product of the annotation zoo (every public name of typing and collections.abc, bare and subscripted with 1-3 arguments, '
         'PEP 585 aliases of all standard containers, user Generic / Protocol / TypedDict / Enum classes, TypeVars, ParamSpec, special forms, strings '
@@ -36,6 +38,7 @@ def cases(rng, tier):
             out.append({'m': 'checker', 'c': {'env': K.env_json(), 'ann': ["special", i], 'val': ["inst", K.IDX[K.U]]},
                         'x': {'zoo': [i, j], 'labels': [la, lv]}})
     out += K.gen_checker_cases(rng, 6000 if tier == 'quick' else 100000)
+    out += T.extra_cases(rng, tier)          # exits of the translated checker the generator meets rarely (ir tie)
     # wrapper level: generated programs, keyword calls that Python accepts for the undecorated twin
     n = 900 if tier == 'quick' else 8000
     out += C.build_cases(rng, n, calls_per=3, style='kw', tag='c08a')
@@ -43,6 +46,9 @@ def cases(rng, tier):
     out += C.scenario_cases(rng, n // 8, tag='c08sc')
     out += R.reentrant_cases(rng, n // 6, tag='c08re')
     out += zoo_call_cases(rng, tier)
+    # generic @pedantic_class classes of every shape (explicit Generic[T], typing-alias bases, user generic bases, mixins): no raw
+    # exception may leave the wrapper (the stream of C07's generator; judged here for the containment clause only)
+    out += TV.generic_shape_cases(rng, tier)
     return out
 
 
@@ -108,8 +114,12 @@ def search(rng, tier, near):
 
 def run_impl(cases):
     anns, vals = zoo()
+    T.prepare(cases)
     out = []
+    tv = TV.run_impl([c for c in cases if c['m'] == 'typevars'])          # one generated module for the whole stream
     for c in cases:
+        if c['m'] == 'typevars':
+            out.append(tv.pop(0)); continue
         if c['m'] == 'calllayer':
             out.extend(R.run_impl([c])); continue
         z = c['x'].get('zoo')
@@ -119,9 +129,10 @@ def run_impl(cases):
             v = vals[z[1]][1]
             if vals[z[1]][0] in ('gen', 'iter'):      # one-shot: rebuild
                 v = _zoo._genf() if vals[z[1]][0] == 'gen' else iter([1])
-            out.append({'out': K.run_assert(anns[z[0]][1], v)})
+            o, tr = T.run_assert_traced(anns[z[0]][1], v)      # observed only (which statements real-world annotation objects leave from)
+            out.append({'out': o, 'trace': tr} if tr is not None else {'out': o})
         else:
-            out.extend(K.run_impl_checker([c]))
+            out.extend(T.run_impl_checker([c]))
     return out
 
 
@@ -145,6 +156,8 @@ def judge_call(case, impl, model):
 
 
 def judge(case, impl, model):
+    if case['m'] == 'typevars':
+        return TV.judge_c08(case, impl, model)
     if case['m'] == 'calllayer':
         return judge_call(case, impl, model)
     io = impl['out']
@@ -158,5 +171,10 @@ def judge(case, impl, model):
     if ic == 'escape':
         what = case['x'].get('labels') or [json.dumps(case['c']['ann']), json.dumps(case['c']['val'])]
         pfail = f'{io.split(":", 1)[1]} escaped from assert_value_matches_type (annotation {what[0]}, value {what[1]})'
-    return {'corr': corr, 'pfail': pfail, 'finding': None, 'nontrivial': True,
-            'tag': ('zoo/' if zoo_case else 'vocab/') + io.split(':')[0], 'why': '' if corr else f'implementation {io} vs model {model["out"]}'}
+    j = {'corr': corr, 'pfail': pfail, 'finding': None, 'nontrivial': True,
+         'tag': ('zoo/' if zoo_case else 'vocab/') + io.split(':')[0], 'why': '' if corr else f'implementation {io} vs model {model["out"]}'}
+    return T.apply(j, case, impl, model)      # vocabulary cases: + introspection record, `if` tests, statement trace of the interpreted translation
+
+
+def extra_coverage(results):
+    return T.coverage(results)
